@@ -4,17 +4,20 @@ blanks; strings are hex ("-" = empty), "~" = absent / empty list.
 
 match   m <dest> <events,…> <name=value,…> <eventname> <key> <0|1>        notification.RuleMatches
 hist    shared <0|1>                         storage and middleware use one database handle
-        cfg <bucket> <eventbridge 0|1> <versioned 0|1>
-        rule <dest> <events,…> <name=value,…>
-        op <kind> <key,…> <fault> <mutation,…> <ok|err> <changed 0|1|partial> <dest:event,…>
-             fault = none | mutation | insert:<i> | commit ; mutation = the property's mutation kind per key;
-             changed = what a reader of the key(s) sees differs from before the call; last token = the
-             outbox rows that appeared
+        cfg <i> <bucket> <eventbridge 0|1> <versioned 0|1>      two buckets (i = 0, 1) with DIFFERENT configurations
+        rule <i> <dest> <events,…> <name=value,…>
+        op <kind> <i> <key,…> <srcbucket:srckey|~> <fault> <mutation,…> <ok|err> <changed> <dest:event:bucket:key,…>
+             i = the bucket that is mutated; src = the source of a copy / of an UploadPartCopy part (may be the
+             other bucket); fault = none | mutation | insert:<n> | commit; changed = 0 | 1 | partial |
+             source-changed: what a reader of the mutated key(s) sees differs from before; last token = the
+             outbox rows that appeared, with the bucket and key their PAYLOAD names
         count <n>                            rows the repository counts beyond the reported ones (must be 0)
-disp    dcfg <maxAttempts> <minBackoff ms> <maxBackoff ms> <concurrency> <batch>
-        entry <i> <script of 0/1>            outcomes of the successive Publish calls (then: succeed)
-        pub <i> <attempt> <0|1> <delay ms|~> <early 0|1>   one Publish call; delay = the backoff scheduled after
-             it (next scheduled instant − return of this call); early = the NEXT call started before its schedule
+disp    stage <s> <maxAttempts> <minBackoff ms> <maxBackoff ms> <concurrency> <batch> <lease ms>   (1 or 2 stages: the
+             dispatcher is restarted with another MaxAttempts)
+        entry <i> <script per stage>         per Publish call: 1 ok · 0 failed, reported · K ok, delete lost · L failed,
+             report lost (worker died between claim and report / ReleaseClaim or DeadLetter failed); then: succeed
+        pub <i> <stage> <attempt> <outcome> <delay ms|~> <early 0|1>   delay = nextAttemptAt − now as handed to ReleaseClaim;
+             early = the NEXT call started before its scheduled instant
         final <i> delivered|dead|pending <attempts|~>
 tie:   Pithos.Notify (ruleMatches / attempt / runScript) must reproduce result, state change, rows,
        publish sequence, final state, delays (± tolerance, the code computes them in float64);
@@ -48,11 +51,21 @@ def mutationOf (s : String) : Option Mutation :=
   | "taggingPut" => some .taggingPut | "taggingDelete" => some .taggingDelete
   | _ => none
 
-/-- the events the MIDDLEWARE produces for a mutation kind: AppendObject is not overridden, so none -/
-def codeEvents (m : Mutation) (key : Str) : List Event :=
-  match m with
-  | .append => []
-  | m => [{ name := eventName m, key := key }]
+/-- the call an `op` line stands for -/
+def callOf (bucket : Str) (keys : List Str) (muts : List Mutation) (src : Target) : Option Call :=
+  match muts, keys with
+  | [.put], [k] => some (.put { bucket := bucket, key := k })
+  | [.copy], [k] => some (.copy src { bucket := bucket, key := k })
+  | [.completeMultipart], [k] => some (.complete { bucket := bucket, key := k })
+  | [.delete], [k] => some (.delete { bucket := bucket, key := k } false)
+  | [.deleteMarkerCreated], [k] => some (.delete { bucket := bucket, key := k } true)
+  | [.taggingPut], [k] => some (.tagPut { bucket := bucket, key := k })
+  | [.taggingDelete], [k] => some (.tagDel { bucket := bucket, key := k })
+  | [.append], [k] => some (.append { bucket := bucket, key := k })
+  | ms, ks =>
+    if ms.length == ks.length && ms.length ≥ 2 && ms.all (fun m => m == .delete || m == .deleteMarkerCreated) then
+      some (.deleteObjects bucket ((ks.zip ms).map fun (k, m) => (k, m == .deleteMarkerCreated)))
+    else none
 
 def faultOf (s : String) : Option Fault :=
   if s == "none" then some .none
@@ -62,7 +75,9 @@ def faultOf (s : String) : Option Fault :=
     | ["insert", i] => i.toNat?.map Fault.insertFails
     | _ => none
 
-def rowLt (a b : Row) : Bool := (showStr a.dest ++ "|" ++ showStr a.event) < (showStr b.dest ++ "|" ++ showStr b.event)
+def rowKey (r : Row) : String := showStr r.dest ++ "|" ++ showStr r.event ++ "|" ++ showStr r.bucket ++ "|" ++ showStr r.key
+
+def rowLt (a b : Row) : Bool := rowKey a < rowKey b
 
 def insertRow (r : Row) : List Row → List Row
   | [] => [r]
@@ -70,7 +85,7 @@ def insertRow (r : Row) : List Row → List Row
 
 def sortRows (rs : List Row) : List Row := rs.foldr insertRow []
 
-def showRows (rs : List Row) : String := String.intercalate "," (rs.map fun r => showStr r.dest ++ "|" ++ showStr r.event)
+def showRows (rs : List Row) : String := String.intercalate "," (rs.map rowKey)
 
 /-- remove one occurrence -/
 def removeOne (r : Row) : List Row → Option (List Row)
@@ -81,7 +96,7 @@ def removeOne (r : Row) : List Row → Option (List Row)
 def minus (a b : List Row) : List Row :=
   b.foldl (fun acc r => match removeOne r acc with | some acc' => acc' | none => acc) a
 
-def delayTolMs : Nat := 30
+def delayTolMs : Nat := 60
 
 end C22
 
@@ -95,7 +110,7 @@ def judgeMatch (lines : List String) : Verdict := Id.run do
     | ["m", d, e, f, name, key, res] =>
       n := n + 1
       let r := ruleTok d e f
-      let ev : Event := { name := strTok name, key := strTok key }
+      let ev : Event := { name := strTok name, bucket := [], key := strTok key }
       let m := ruleMatches r ev
       if m then pos := pos + 1
       if m != (res == "1") then
@@ -109,91 +124,127 @@ def judgeHist (lines : List String) : Verdict := Id.run do
   let mut div : List String := []
   let mut vio : List (String × String) := []
   let mut stats : List (String × Nat) := []
-  let mut cfg : Config := { rules := [], eventBridge := false, bucket := [] }
+  let mut cfgs : List (Nat × Str × Config) := []     -- bucket index, bucket name, configuration
   let mut shared := true
   let mut nops := 0
   for l in lines do
     match tokens l with
-    | ["shared", s] =>
-      shared := s == "1"
+    | ["shared", sh] =>
+      shared := sh == "1"
       if !shared then div := div ++ ["premise: storage and middleware do not share one database handle"]
-    | ["cfg", b, eb, _] => cfg := { cfg with bucket := strTok b, eventBridge := eb == "1" }
-    | ["rule", d, e, f] => cfg := { cfg with rules := cfg.rules ++ [ruleTok d e f] }
+    | ["cfg", i, b, eb, _] => cfgs := cfgs ++ [(i.toNat!, strTok b, { rules := [], eventBridge := eb == "1" })]
+    | ["rule", i, d, e, f] =>
+      cfgs := cfgs.map fun (j, b, c) => if j == i.toNat! then (j, b, { c with rules := c.rules ++ [ruleTok d e f] }) else (j, b, c)
     | ["count", n] => if n != "0" then div := div ++ [s!"repository count differs from the table by {n}"]
     | ["panic", m] => vio := vio ++ [("C22.panic", s!"panic: {(unhexStr m).getD m}")]
-    | ["op", kind, keys, fault, muts, res, changed, rows] =>
+    | ["op", kind, bidx, keys, src, fault, muts, res, changed, rows] =>
       nops := nops + 1
+      let cfgOf : Str → Config := fun b => ((cfgs.find? fun (_, n, _) => n == b).map (·.2.2)).getD { rules := [], eventBridge := false }
+      let bucket := ((cfgs.find? fun (j, _, _) => j == bidx.toNat!).map (·.2.1)).getD []
       let ks := (listTok keys).map strTok
       let ms := (listTok muts).filterMap mutationOf
-      let obsRows := sortRows ((listTok rows).map fun x => let p := pairTok ":" x; { dest := p.1, event := p.2 })
-      match faultOf fault with
-      | none => div := div ++ [s!"unparsable fault {fault}"]
-      | some flt =>
-        if ms.length != ks.length || ms.isEmpty then div := div ++ [s!"unparsable op {l}"]
+      let srcT : Target := if src == "~" then { bucket := [], key := [] } else let p := pairTok ":" src; { bucket := p.1, key := p.2 }
+      let obsRows := sortRows ((listTok rows).filterMap fun x =>
+        match x.splitOn ":" with
+        | [d, e, b, k] => some { dest := strTok d, event := strTok e, bucket := strTok b, key := strTok k }
+        | _ => none)
+      match faultOf fault, callOf bucket ks ms srcT with
+      | some flt, some call =>
+        -- tie: the middleware's events for this call, evaluated against the configuration of the event's bucket
+        let out := attempt shared (entriesForAll cfgOf (codeEvents call)) flt
+        if out.ok != (res == "ok") then
+          div := div ++ [s!"op {kind} fault={fault}: model ok={out.ok}, impl {res}"]
+        if (if out.committed then "1" else "0") != changed then
+          div := div ++ [s!"op {kind} fault={fault}: model committed={out.committed}, impl changed={changed}"]
+        if sortRows out.rows != obsRows then
+          div := div ++ [s!"op {kind} fault={fault}: model rows=[{showRows (sortRows out.rows)}], impl rows=[{showRows obsRows}]"]
+        -- judge: rows ⇔ committed ∧ selected by the configuration of the bucket that was MUTATED, and addressed to it
+        let committed := changed == "1"
+        let want := sortRows ((specEvents call).flatMap (demanded cfgOf committed))
+        if changed == "partial" then
+          vio := vio ++ [("C22.partial-commit", s!"{kind}: some but not all targeted keys changed")]
+        else if changed == "source-changed" then
+          vio := vio ++ [("C22.copy-source-changed", s!"{kind}: the source object of the copy changed")]
         else
-          -- tie
-          let evsCode := (ms.zip ks).flatMap fun (m, k) => codeEvents m k
-          let out := attempt shared (entriesForAll cfg evsCode) flt
-          if out.ok != (res == "ok") then
-            div := div ++ [s!"op {kind} fault={fault}: model ok={out.ok}, impl {res}"]
-          if (if out.committed then "1" else "0") != changed then
-            div := div ++ [s!"op {kind} fault={fault}: model committed={out.committed}, impl changed={changed}"]
-          if sortRows out.rows != obsRows then
-            div := div ++ [s!"op {kind} fault={fault}: model rows=[{showRows (sortRows out.rows)}], impl rows=[{showRows obsRows}]"]
-          -- judge: rows ⇔ committed ∧ selected
-          let evsSpec := (ms.zip ks).map fun (m, k) => ({ name := eventName m, key := k } : Event)
-          let committed := changed == "1"
-          let want := sortRows (evsSpec.flatMap (demanded cfg committed))
-          if changed == "partial" then
-            vio := vio ++ [("C22.partial-commit", s!"{kind}: some but not all targeted keys changed")]
+          if !committed && !obsRows.isEmpty then
+            vio := vio ++ [("C22.row-without-committed-mutation", s!"{kind} fault={fault}: rows [{showRows obsRows}] exist although the mutation left no trace")]
           else
-            if !committed && !obsRows.isEmpty then
-              vio := vio ++ [("C22.row-without-committed-mutation", s!"{kind} fault={fault}: rows [{showRows obsRows}] exist although the mutation left no trace")]
-            else
-              let extra := minus obsRows want
-              let missing := minus want obsRows
-              if !extra.isEmpty then
-                vio := vio ++ [("C22.row-without-selecting-rule", s!"{kind}: rows [{showRows extra}] are not demanded by any rule")]
-              if !missing.isEmpty then
-                let mk := (listTok muts).headD "?"
-                vio := vio ++ [(s!"C22.committed-mutation-without-row.{mk}", s!"{kind} committed, rules demand [{showRows missing}], no such outbox row")]
-            if (res == "ok") != committed then
-              vio := vio ++ [("C22.result-disagrees-with-state", s!"{kind} fault={fault}: answered {res} but changed={changed}")]
-          stats := addStats stats [("op_" ++ kind, 1), ("fault_" ++ (fault.splitOn ":").headD fault, 1),
-            (if committed then "ops_committed" else "ops_rolled_back", 1), ("rows_observed", obsRows.length),
-            (if want.isEmpty then "ops_no_rule_selects" else "ops_rule_selects", 1)]
+            let extra := minus obsRows want
+            let missing := minus want obsRows
+            let mk := (listTok muts).headD "?"
+            -- a row for an object the call did not mutate (another bucket / key) gets its own signature
+            let foreign := extra.filter fun r => !(mutated call).any fun mt => mt.2.bucket == r.bucket && mt.2.key == r.key
+            if !foreign.isEmpty then
+              vio := vio ++ [(s!"C22.row-addressed-to-unmutated-object.{mk}", s!"{kind} on bucket {showStr bucket}: rows [{showRows foreign}] name a bucket/key this call did not mutate")]
+            if !(minus extra foreign).isEmpty then
+              vio := vio ++ [("C22.row-without-selecting-rule", s!"{kind}: rows [{showRows (minus extra foreign)}] are not demanded by any rule of the mutated bucket")]
+            if !missing.isEmpty then
+              vio := vio ++ [(s!"C22.committed-mutation-without-row.{mk}", s!"{kind} on bucket {showStr bucket} committed, its rules demand [{showRows missing}], no such outbox row")]
+          if (res == "ok") != committed then
+            vio := vio ++ [("C22.result-disagrees-with-state", s!"{kind} fault={fault}: answered {res} but changed={changed}")]
+        stats := addStats stats [("op_" ++ kind, 1), ("fault_" ++ (fault.splitOn ":").headD fault, 1),
+          (if committed then "ops_committed" else "ops_rolled_back", 1), ("rows_observed", obsRows.length),
+          (if want.isEmpty then "ops_no_rule_selects" else "ops_rule_selects", 1),
+          (if src != "~" && srcT.bucket != bucket then "ops_cross_bucket" else "ops_same_bucket", 1)]
+      | _, _ => div := div ++ [s!"unparsable op {l}"]
     | ["kind", _] => pure ()
     | _ => div := div ++ [s!"unparsable:{l}"]
   return { diverge := div, violations := vio, nontrivial := nops ≥ 2, fingerprint := fpLines lines,
            stats := stats ++ [("hist_cases", 1)], samples := [String.intercalate ";" (lines.take 8)] }
 
 structure PubObs where
+  stage : Nat
   attempt : Nat
-  ok : Bool
+  outcome : Char
   delay : Option Nat
   early : Bool
 
 structure EntryObs where
   idx : Nat
-  script : List Bool
+  scripts : List (List PubOutcome)
   pubs : List PubObs := []
   final : String := "?"
   attempts : Option Nat := none
+
+def outcomeOf (c : Char) : PubOutcome :=
+  if c == '1' then .ok else if c == 'K' then .okLost else if c == 'L' then .failLost else .fail
+
+def outcomeChar : PubOutcome → Char
+  | .ok => '1' | .fail => '0' | .okLost => 'K' | .failLost => 'L'
+
+/-- the model over the stages: each stage continues with the attempt count the previous one left;
+the publisher double succeeds once the last script is used up -/
+def runStages (cfgs : List DCfg) (scripts : List (List PubOutcome)) : Final × List (Nat × Pub) := Id.run do
+  let mut a := 0
+  let mut fin : Final := .pending 0
+  let mut pubs : List (Nat × Pub) := []
+  let n := scripts.length
+  let mut i := 0
+  for (c, sc) in cfgs.zip scripts do
+    let sc' := if i + 1 == n then sc ++ [.ok] else sc
+    let (f, ps) := runOutcomes c a sc'
+    pubs := pubs ++ ps.map fun p => (i, p)
+    fin := f
+    i := i + 1
+    match f with
+    | .pending k => a := k
+    | _ => break
+  return (fin, pubs)
 
 open C22 in
 def judgeDisp (lines : List String) : Verdict := Id.run do
   let mut div : List String := []
   let mut vio : List (String × String) := []
-  let mut dc : DCfg := { maxAttempts := 0, minBackoff := 1, maxBackoff := 1 }
+  let mut dcs : List DCfg := []
   let mut entries : List EntryObs := []
   for l in lines do
     match tokens l with
     | ["kind", _] => pure ()
-    | ["dcfg", mx, mn, mb, _, _] => dc := { maxAttempts := mx.toNat!, minBackoff := mn.toNat!, maxBackoff := mb.toNat! }
-    | ["entry", i, sc] =>
-      entries := entries ++ [{ idx := i.toNat!, script := if sc == "~" then [] else sc.toList.map (· == '1') }]
-    | ["pub", i, a, ok, d, early] =>
-      let p : PubObs := { attempt := a.toNat!, ok := ok == "1", delay := if d == "~" then none else some d.toNat!, early := early == "1" }
+    | ["stage", _, mx, mn, mb, _, _, _] => dcs := dcs ++ [{ maxAttempts := mx.toNat!, minBackoff := mn.toNat!, maxBackoff := mb.toNat! }]
+    | "entry" :: i :: scs =>
+      entries := entries ++ [{ idx := i.toNat!, scripts := scs.map fun sc => if sc == "~" then [] else sc.toList.map outcomeOf }]
+    | ["pub", i, st, a, o, d, early] =>
+      let p : PubObs := { stage := st.toNat!, attempt := a.toNat!, outcome := (o.toList.headD '?'), delay := if d == "~" then none else some d.toNat!, early := early == "1" }
       entries := entries.map fun e => if e.idx == i.toNat! then { e with pubs := e.pubs ++ [p] } else e
     | ["final", i, f, a] =>
       entries := entries.map fun e => if e.idx == i.toNat! then { e with final := f, attempts := a.toNat? } else e
@@ -203,55 +254,86 @@ def judgeDisp (lines : List String) : Verdict := Id.run do
   let mut ndead := 0
   let mut ndelivered := 0
   let mut ndelays := 0
+  let mut nlost := 0
+  let mut delayMiss : List String := []
+  let mut boundMiss : List String := []
   for e in entries do
     npubs := npubs + e.pubs.length
-    -- tie: the publisher double succeeds once its script is used up
-    let (fin, pubs) := runScript dc 0 (e.script ++ [true])
+    -- tie
+    let (fin, pubs) := runStages dcs e.scripts
     let finS := match fin with | .delivered => "delivered" | .dead => "dead" | .pending _ => "pending"
     if finS != e.final then div := div ++ [s!"entry {e.idx}: model final={finS}, impl {e.final}"]
-    if pubs.map (fun p => (p.attempt, p.ok)) != e.pubs.map (fun p => (p.attempt, p.ok)) then
-      div := div ++ [s!"entry {e.idx}: model publishes={pubs.map (fun p => (p.attempt, p.ok))}, impl {e.pubs.map (fun p => (p.attempt, p.ok))}"]
+    let mseq := pubs.map fun (st, p) => (st, p.attempt, p.ok)
+    let oseq := e.pubs.map fun p => (p.stage, p.attempt, p.outcome == '1' || p.outcome == 'K')
+    if mseq != oseq then
+      div := div ++ [s!"entry {e.idx}: model publishes (stage, attempt, ok)={mseq}, impl {oseq}"]
     else
-      for (m, o) in pubs.zip e.pubs do
+      for ((_, m), o) in pubs.zip e.pubs do
         match o.delay with
         | some d =>
           ndelays := ndelays + 1
-          if d + delayTolMs < m.delay || m.delay + delayTolMs < d then
-            div := div ++ [s!"entry {e.idx} attempt {o.attempt}: model backoff {m.delay} ms, observed {d} ms"]
+          -- the measured value can only fall short of the computed delay (two clock readings apart)
+          if d + delayTolMs < m.delay || m.delay < d then
+            delayMiss := delayMiss ++ [s!"entry {e.idx} attempt {o.attempt}: model backoff {m.delay} ms, observed {d} ms"]
         | none => pure ()
-    -- judge: delivered at least once, or dead-lettered after exactly MaxAttempts failed attempts
-    let fails := (e.pubs.filter (!·.ok)).length
-    let oks := (e.pubs.filter (·.ok)).length
+    -- judge
+    let lost := (e.pubs.filter fun p => p.outcome == 'L' || p.outcome == 'K').length
+    nlost := nlost + lost
+    let oks := (e.pubs.filter fun p => p.outcome == '1' || p.outcome == 'K').length
+    let lostOks := (e.pubs.filter fun p => p.outcome == 'K').length
+    let stageMax := fun (st : Nat) => (dcs.getD st { maxAttempts := 0, minBackoff := 1, maxBackoff := 1 }).maxAttempts
+    -- delivered at least once, or dead-lettered
     if e.final == "delivered" then
       ndelivered := ndelivered + 1
       if oks == 0 then
         vio := vio ++ [("C22.entry-removed-without-delivery", s!"entry {e.idx}: row gone, no successful publish")]
-      if (e.pubs.getLast?.map (·.ok)) != some true || oks > 1 then
-        vio := vio ++ [("C22.published-after-settled", s!"entry {e.idx}: {oks} successful publishes / publish after success")]
-      if dc.maxAttempts > 0 && fails ≥ dc.maxAttempts then
-        vio := vio ++ [("C22.retried-beyond-max-attempts", s!"entry {e.idx}: {fails} failed attempts with MaxAttempts={dc.maxAttempts}")]
+      if oks > 1 + lostOks || (e.pubs.getLast?.map (·.outcome)) != some '1' then
+        vio := vio ++ [("C22.published-after-settled", s!"entry {e.idx}: {oks} successful publishes with {lostOks} lost deletes / publish after the recorded success")]
     else if e.final == "dead" then
       ndead := ndead + 1
-      if dc.maxAttempts == 0 || fails != dc.maxAttempts || oks != 0 then
-        vio := vio ++ [("C22.deadlettered-after-wrong-number-of-attempts", s!"entry {e.idx}: dead-lettered after {fails} failed / {oks} successful publishes, MaxAttempts={dc.maxAttempts}")]
+      match e.pubs.getLast? with
+      | some p =>
+        if stageMax p.stage == 0 || p.outcome != '0' || p.attempt < stageMax p.stage then
+          vio := vio ++ [("C22.deadlettered-after-wrong-number-of-attempts", s!"entry {e.idx}: dead-lettered after attempt {p.attempt} (outcome {p.outcome}), MaxAttempts={stageMax p.stage}")]
+      | none => vio := vio ++ [("C22.deadlettered-after-wrong-number-of-attempts", s!"entry {e.idx}: dead-lettered without any publish")]
+      if lost == 0 && e.scripts.length == 1 && (e.pubs.filter (·.outcome == '0')).length != stageMax 0 then
+        vio := vio ++ [("C22.deadlettered-after-wrong-number-of-attempts", s!"entry {e.idx}: dead-lettered after {(e.pubs.filter (·.outcome == '0')).length} failed publishes, MaxAttempts={stageMax 0}")]
     else
-      vio := vio ++ [("C22.entry-neither-delivered-nor-deadlettered", s!"entry {e.idx}: final state {e.final} after its script and all backoffs elapsed")]
-    -- judge: backoff bounded by the configured limits, never retried before it elapsed
+      vio := vio ++ [("C22.entry-neither-delivered-nor-deadlettered", s!"entry {e.idx}: final state {e.final} (attempts {e.attempts}) after its script, all backoffs and leases elapsed")]
+    -- bounded retries: a REPORTED failure of an attempt numbered ≥ MaxAttempts is the entry's last publish
+    let n := e.pubs.length
+    let mut j := 0
+    for p in e.pubs do
+      j := j + 1
+      if p.outcome == '0' && stageMax p.stage > 0 && p.attempt ≥ stageMax p.stage && j < n then
+        vio := vio ++ [("C22.retried-after-exhausting-max-attempts", s!"entry {e.idx}: publish #{j} (attempt {p.attempt}, MaxAttempts={stageMax p.stage}) failed and was reported, yet {n - j} more publish(es) followed")]
+        break
+    -- … and with one stage the number of publishes is at most MaxAttempts + lost reports
+    if e.scripts.length == 1 && stageMax 0 > 0 && n > stageMax 0 + lost then
+      vio := vio ++ [("C22.attempts-exceed-bound", s!"entry {e.idx}: {n} publishes, MaxAttempts={stageMax 0}, {lost} lost reports")]
+    -- backoff bounded by the configured limits, never retried before it elapsed
     for o in e.pubs do
       if o.early then
         vio := vio ++ [("C22.retry-before-backoff-elapsed", s!"entry {e.idx}: the attempt after #{o.attempt} started before its scheduled instant")]
       match o.delay with
       | some d =>
+        let dc := dcs.getD o.stage { maxAttempts := 0, minBackoff := 1, maxBackoff := 1 }
         let lower := if dc.minBackoff * 2 ^ (o.attempt - 1) > dc.maxBackoff then dc.maxBackoff else dc.minBackoff * 2 ^ (o.attempt - 1)
-        if d < lower || d > dc.maxBackoff + delayTolMs then
-          vio := vio ++ [("C22.backoff-out-of-bounds", s!"entry {e.idx} after attempt {o.attempt}: delay {d} ms, expected min({dc.minBackoff}·2^{o.attempt - 1}, {dc.maxBackoff})")]
+        if d > dc.maxBackoff then
+          vio := vio ++ [("C22.backoff-out-of-bounds", s!"entry {e.idx} after attempt {o.attempt}: delay {d} ms exceeds MaxBackoff {dc.maxBackoff}")]
+        else if d + delayTolMs < lower then
+          boundMiss := boundMiss ++ [s!"entry {e.idx} after attempt {o.attempt}: delay {d} ms, expected min({dc.minBackoff}·2^{o.attempt - 1}, {dc.maxBackoff})"]
       | none => pure ()
+  -- measured delays: a loaded machine stretches the gap between two clock readings now and then; a
+  -- systematic deviation shows on (almost) every release
+  if delayMiss.length ≥ 3 then div := div ++ delayMiss.take 3
+  if boundMiss.length ≥ 3 then vio := vio ++ (boundMiss.take 3).map fun m => ("C22.backoff-out-of-bounds", m)
   return { diverge := div, violations := vio, nontrivial := entries.length ≥ 2 && npubs > entries.length,
            fingerprint := fpLines (lines.map fun l => match tokens l with
-             | ["pub", i, a, ok, _, e] => s!"pub {i} {a} {ok} {e}"       -- measured milliseconds are not part of the identity
+             | ["pub", i, st, a, o, _, e] => s!"pub {i} {st} {a} {o} {e}"       -- measured milliseconds are not part of the identity
              | _ => l),
            stats := [("disp_entries", entries.length), ("disp_publishes", npubs), ("disp_delivered", ndelivered),
-                     ("disp_deadlettered", ndead), ("disp_delays_measured", ndelays), ("disp_cases", 1)] }
+                     ("disp_deadlettered", ndead), ("disp_delays_measured", ndelays), ("disp_lost_reports", nlost), ("disp_cases", 1)] }
 
 def judgeCase (_k : Nat) (lines : List String) : Verdict :=
   match lines.head?.map tokens with
